@@ -27,6 +27,15 @@ func init() {
 		for _, t := range c.S.Types {
 			types = append(types, t.Name)
 		}
+		// ... and for descriptor-driven (dynamicpb) messages of the types that embed well-known types
+		dynFrom := len(types)
+		for _, t := range []string{"verif.xa.Times", "verif.xa.Holder", "verif.opt.WithOptions"} {
+			for _, x := range c.S.Types {
+				if x.Name == t {
+					types = append(types, t)
+				}
+			}
+		}
 		var mu sync.Mutex
 		var wg sync.WaitGroup
 		sem := make(chan struct{}, 12)
@@ -38,7 +47,11 @@ func init() {
 				defer wg.Done()
 				defer func() { <-sem }()
 				evs := filepath.Join(c.S.Dir, fmt.Sprintf("rg%d.ndjson", i))
-				if o, err := c.S.HRun(30*time.Minute, "rapidgen", "--type", t, "--n", fmt.Sprint(c.pick(3, 100)), "--seed", fmt.Sprint(c.Seed*50+int64(i)), "--out", evs); err != nil {
+				args := []string{"rapidgen", "--type", t, "--n", fmt.Sprint(c.pick(3, 100)), "--seed", fmt.Sprint(c.Seed*50 + int64(i)), "--out", evs}
+				if i >= dynFrom {
+					args = append(args, "--dynamic")
+				}
+				if o, err := c.S.HRun(30*time.Minute, args...); err != nil {
 					mu.Lock()
 					c.R.InternalErr("rapidgen %s: %v %s", t, err, trunc(o, 800))
 					mu.Unlock()
